@@ -1,0 +1,46 @@
+//! Scheduling points for the external verification harness (compiled only with
+//! `--cfg inputlayer_verif`; never part of a normal build).
+//!
+//! A thread that was marked as *controlled* reports every `point(name)` it
+//! reaches to the installed controller, which may block it there until the
+//! harness lets it continue. With no controller installed, or on threads that
+//! are not controlled, `point` does nothing.
+use std::cell::Cell;
+use std::sync::{Arc, RwLock};
+
+/// Receives the scheduling points of controlled threads.
+pub trait Controller: Send + Sync {
+    /// Called by a controlled thread when it reaches the point `name`; returns
+    /// when the thread may continue.
+    fn point(&self, name: &'static str);
+}
+
+static CONTROLLER: RwLock<Option<Arc<dyn Controller>>> = RwLock::new(None);
+
+thread_local! {
+    static CONTROLLED: Cell<bool> = const { Cell::new(false) };
+}
+
+/// Install (or remove) the process-wide controller.
+pub fn install(controller: Option<Arc<dyn Controller>>) {
+    if let Ok(mut slot) = CONTROLLER.write() {
+        *slot = controller;
+    }
+}
+
+/// Mark the calling thread as controlled (or not).
+pub fn set_controlled(on: bool) {
+    CONTROLLED.with(|c| c.set(on));
+}
+
+/// A scheduling point. No-op unless the thread is controlled and a controller is installed.
+#[inline]
+pub fn point(name: &'static str) {
+    if !CONTROLLED.with(Cell::get) {
+        return;
+    }
+    let controller = CONTROLLER.read().ok().and_then(|slot| slot.clone());
+    if let Some(c) = controller {
+        c.point(name);
+    }
+}
